@@ -390,6 +390,10 @@ class Repo(object):
             # generic functions read as isinstance chains; helper classes are left as written here (the rules for the
             # Python modules know the classes of the reference tree by role) -- the Cython front end flattens them
             objflat.plain_local_assignments(tree)
+            objflat.merge_registry(tree)
+            objflat.inline_skeletons(tree)
+            objflat._link(tree)
+            objflat.inline_generators(tree, lambda name, tree=tree, rel=rel: self._generator_named(tree, rel, name))
             if rel in FLATTEN_CLASSES:
                 flattened = objflat.flatten(tree)
             else:
@@ -400,6 +404,28 @@ class Repo(object):
             self._mods[rel].repo = self
             self._mods[rel].tree._pymodule = self._mods[rel]
         return self._mods[rel]
+
+    def _generator_named(self, tree, rel, name):
+        """the module-level function `name` of this module, or of the module of the package it is imported from"""
+        for s_ in tree.body:
+            if isinstance(s_, ast.FunctionDef) and s_.name == name:
+                return s_
+        loading = self.__dict__.setdefault('_loading', set())
+        for s_ in tree.body:
+            if isinstance(s_, ast.ImportFrom) and s_.module and s_.level == 0:
+                for al in s_.names:
+                    if (al.asname or al.name) == name:
+                        for other in (s_.module.replace('.', '/') + '.py', s_.module.replace('.', '/') + '/__init__.py'):
+                            if self.exists(other) and other != rel and other not in loading:
+                                loading.add(rel)
+                                try:
+                                    om = self.module(other)
+                                finally:
+                                    loading.discard(rel)
+                                for d in om.tree.body:
+                                    if isinstance(d, ast.FunctionDef) and d.name == al.name:
+                                        return d
+        return None
 
     def py_files(self, subdir):
         out = []
